@@ -43,6 +43,15 @@ def tree(p, d):
     except BaseException as e:
         return ['exc', type(e).__name__, str(e)[:100]]
 out['selfparse'] = tree(g1, desc)[0] == 'tree'
+out['gen1_again_source'] = None
+# the generated text is a function of the description alone, not of what the process compiled before
+# (generate_parser.py itself generates twice in one process)
+try:
+    sourcer.Grammar('start = [Opt("a"), /b+/ | "c"]\nclass K { x: "q" }\n')
+    out['gen1_again_source'] = sourcer.Grammar(desc, include_source=True)._source_code
+    out['gen1_again_same'] = out['gen1_again_source'] == out['gen1_source']
+except BaseException as e:
+    out['gen1_again_same'] = '%s: %s' % (type(e).__name__, str(e)[:200])
 descs = json.load(open(DESCS))
 cmp = []
 for d in descs:
@@ -175,6 +184,12 @@ def run(chk):
             descs.append('start = let %s = "a" in `%s`\n' % (nm, nm))
             descs.append('T(%s) = %s\nstart = T("a")\n' % (nm, nm))
             descs.append('start = "a" %s "b"\n' % nm)
+    # long lines with one stray token far to the right (every window of the abbreviated error excerpt)
+    longrule = 'start = ' + ' | '.join('"alt%02d"' % k for k in range(26)) + '\n'
+    for line2 in ('', 'Next = "x"\n'):
+        for k in range(40, len(longrule) - 1, 4):
+            for tok in (')', ']', '}'):
+                descs.append(longrule[:k] + tok + longrule[k:] + line2)
     base = list(descs)
     for d in base:
         for _ in range(10 if chk.tier == 'quick' else 40):
@@ -209,6 +224,13 @@ def run(chk):
                               {'description': d, 'gen0': [c[1], c[3]], 'gen1': [c[2], c[4]]})
             elif len(chk.samples) < 3 and i in (0, nrepo + 3, len(base) + 5):
                 chk.sample({'description': d[:300], 'gen0': [c[1], c[3]], 'gen1': [c[2], c[4]]})
+        if s1.get('gen1_again_source') is not None:
+            events.append({'ev': 'regenerate', 'from': 0,
+                           'sha': int(hashlib.sha256(s1['gen1_again_source'].encode()).hexdigest()[:7], 16) + 1})
+        chk.count(['gen1 again in the same process'], True)
+        if s1.get('gen1_again_same') is not True:
+            chk.violation('compiling grammar.txt a second time in the same process (after another grammar) does not reproduce '
+                          'the source text of generation 1: %s' % (s1.get('gen1_again_same'),), {'stage': 1})
         if not s1['selfparse']:
             chk.violation('the regenerated parser does not accept grammar.txt itself', {'stage': 1})
         else:
